@@ -1,5 +1,10 @@
 ----------------------------- MODULE Merkle_MC -----------------------------
-EXTENDS Merkle, Json
+EXTENDS Merkle, Json, Merkle_Gen
 EdgeA == PrintT(<<"EDGE", ToJson([from |-> StateA, act |-> act', to |-> StateA'])>>)
 InitOutA == (TLCGet("level") = 1) => PrintT(<<"INIT", ToJson(StateA)>>)
+\* SpecBig: no torn tails, so the file is the function FileOf(HashesD(0, n)) of n (invariant FileOK);
+\* it is not printed (the harness derives it from n with its own evaluator)
+StateBig == [n |-> n, nh |-> PopCount(n), wpos |-> wpos, mem |-> mem, k |-> k]
+EdgeBig == PrintT(<<"EDGE", ToJson([from |-> StateBig, act |-> act', to |-> StateBig'])>>)
+InitOutBig == (TLCGet("level") = 1) => PrintT(<<"INIT", ToJson(StateBig)>>)
 =============================================================================
